@@ -7,6 +7,7 @@ package main
 // rules work on the syntax of the *generated* program. Nothing is executed.
 
 import (
+	"os"
 	"fmt"
 	"go/ast"
 	"go/constant"
@@ -70,10 +71,11 @@ type Inline struct {
 }
 
 type CallW struct {
-	Fn   *types.Func
-	Name string
-	Args []ast.Expr
-	Pos  token.Pos
+	Fn      *types.Func
+	Name    string
+	Args    []ast.Expr
+	ArgText []string // the arguments as the caller of a helper evaluated in place wrote them (an Expression parameter of that helper reads as the caller's expression)
+	Pos     token.Pos
 }
 type MapAdd struct {
 	Expr    ast.Expr
@@ -268,6 +270,7 @@ type env struct {
 	fvals   map[types.Object][]ast.Expr          // function-typed local → the functions / method values it may hold here
 	flits   map[types.Object]*litVal             // function-typed local or parameter → the function literal it holds, with the environment it was written in
 	galias  map[types.Object]Part                // local that received the fresh variable name a helper generated and returned → that name
+	bools   map[types.Object]bool                // boolean local whose value is known here (computed from known text: checked := form.typed == "")
 }
 
 type litVal struct {
@@ -276,7 +279,7 @@ type litVal struct {
 }
 
 func newEnv() *env {
-	return &env{vals: map[types.Object][]Part{}, genvars: map[types.Object]bool{}, rows: map[types.Object]map[string]ast.Expr{}, alias: map[types.Object]string{}, fvals: map[types.Object][]ast.Expr{}, flits: map[types.Object]*litVal{}, galias: map[types.Object]Part{}}
+	return &env{vals: map[types.Object][]Part{}, genvars: map[types.Object]bool{}, rows: map[types.Object]map[string]ast.Expr{}, alias: map[types.Object]string{}, fvals: map[types.Object][]ast.Expr{}, flits: map[types.Object]*litVal{}, galias: map[types.Object]Part{}, bools: map[types.Object]bool{}}
 }
 func (e *env) clone() *env {
 	n := newEnv()
@@ -294,6 +297,9 @@ func (e *env) clone() *env {
 	}
 	for k, v := range e.galias {
 		n.galias[k] = v
+	}
+	for k, v := range e.bools {
+		n.bools[k] = v
 	}
 	for k, v := range e.vals {
 		n.vals[k] = v
@@ -329,6 +335,15 @@ func constOf(ps []Part) (string, bool) {
 
 // merge joins environments after a branch.
 func mergeEnv(base *env, branches []*env) {
+	// a boolean local stays known only if every branch leaves it with the same value
+	for k := range base.bools {
+		for _, b := range branches {
+			if v, ok := b.bools[k]; !ok || v != base.bools[k] {
+				delete(base.bools, k)
+				break
+			}
+		}
+	}
 	// a function-typed local holds after the branches whatever it may hold at the end of any of them
 	fkeys := map[types.Object]bool{}
 	for _, b := range branches {
@@ -421,6 +436,8 @@ func mergeEnv(base *env, branches []*env) {
 }
 
 type gemEval struct {
+	retText []Part        // the code text the helper last evaluated in place returned as its first (string) result, when known
+	retCall *ast.CallExpr // … and the call it was evaluated for
 	g     *GEM
 	gf    *GFunc
 	depth int
@@ -489,6 +506,16 @@ func (ev *gemEval) stmt(s ast.Stmt, e *env) []Node {
 		}
 		out = append(out, ev.exprNodes(s.Cond, e, nil)...)
 		if ev.isErrCheck(s) {
+			return out
+		}
+		// a condition over text that is known here (a descriptor's fields, constants): only the branch it selects
+		if v, known := ev.constCond(s.Cond, e); known {
+			if v {
+				return append(out, ev.block(s.Body.List, e)...)
+			}
+			if s.Else != nil {
+				return append(out, ev.stmt(s.Else, e)...)
+			}
 			return out
 		}
 		e1 := e.clone()
@@ -684,6 +711,18 @@ func (ev *gemEval) bind(obj types.Object, rhs ast.Expr, e *env) {
 		return
 	}
 	delete(e.galias, obj)
+	delete(e.bools, obj)
+	delete(e.rows, obj)
+	if b, ok := obj.Type().Underlying().(*types.Basic); ok && b.Kind() == types.Bool {
+		if v, known := ev.constCond(rhs, e); known {
+			e.bools[obj] = v
+		}
+	}
+	if _, isStruct := obj.Type().Underlying().(*types.Struct); isStruct {
+		if ds := ev.descValues(rhs, e, 0); len(ds) == 1 {
+			e.rows[obj] = ds[0]
+		}
+	}
 	if call, ok := ast.Unparen(rhs).(*ast.CallExpr); ok {
 		if fn := calleeOf(ev.info(), call); ev.g.isFreshNameFunc(fn) {
 			e.genvars[obj] = true
@@ -710,6 +749,255 @@ func (ev *gemEval) bind(obj types.Object, rhs ast.Expr, e *env) {
 			e.fvals[obj] = fv
 		}
 	}
+}
+
+// foldLit: the text a function literal of the form func(…string) string { return <text> } gives for the arguments.
+func (ev *gemEval) foldLit(lv *litVal, args []ast.Expr, e *env) []Part {
+	info := ev.info()
+	if len(lv.lit.Body.List) == 1 {
+		if ret, ok := lv.lit.Body.List[0].(*ast.ReturnStmt); ok && len(ret.Results) == 1 {
+			e3 := lv.env.clone()
+			k := 0
+			for _, prm := range lv.lit.Type.Params.List {
+				for _, nm := range prm.Names {
+					if k >= len(args) {
+						return []Part{{Kind: PData, Src: "func literal"}}
+					}
+					if ob := info.Defs[nm]; ob != nil && isStringType(ob.Type()) {
+						e3.vals[ob] = ev.fold(args[k], e)
+						delete(e3.genvars, ob)
+					}
+					k++
+				}
+			}
+			if k == len(args) {
+				return ev.fold(ret.Results[0], e3)
+			}
+		}
+	}
+	return []Part{{Kind: PData, Src: "func literal"}}
+}
+
+// isDescriptorType: a struct type of the generator package with at least one string or text-function field — a
+// description of what to emit, handed to the emitter that does it.
+func isDescriptorType(t types.Type, pkg *types.Package) bool {
+	nt, ok := t.(*types.Named)
+	if !ok || nt.Obj().Pkg() != pkg {
+		return false
+	}
+	st, ok := nt.Underlying().(*types.Struct)
+	if !ok {
+		return false
+	}
+	for i := 0; i < st.NumFields(); i++ {
+		ft := st.Field(i).Type()
+		if isStringType(ft) || isTextFunc(ft) {
+			return true
+		}
+	}
+	return false
+}
+
+// returnedText: what the helper, evaluated in environment e, returns as its first result on its final (successful)
+// return, when that is a string built from text known there.
+func (ev *gemEval) returnedText(cg *GFunc, e *env) []Part {
+	res := cg.Decl.Type.Results
+	if res == nil || len(res.List) == 0 {
+		return nil
+	}
+	if t := ev.info().TypeOf(res.List[0].Type); t == nil || !isStringType(t) {
+		return nil
+	}
+	list := cg.Decl.Body.List
+	if len(list) == 0 {
+		return nil
+	}
+	ret, ok := list[len(list)-1].(*ast.ReturnStmt)
+	if !ok {
+		return nil
+	}
+	var x ast.Expr
+	switch {
+	case len(ret.Results) >= 1:
+		x = ret.Results[0]
+	case len(res.List[0].Names) > 0:
+		x = res.List[0].Names[0]
+	default:
+		return nil
+	}
+	parts := ev.fold(x, e)
+	for _, p := range parts {
+		if p.Kind != PConst && p.Kind != PGenVar {
+			return nil
+		}
+	}
+	return parts
+}
+
+// allConst: the parts are all constant text; the text.
+func allConst(ps []Part) (string, bool) {
+	var sb strings.Builder
+	for _, p := range ps {
+		if p.Kind != PConst {
+			return "", false
+		}
+		sb.WriteString(p.Const)
+	}
+	return sb.String(), true
+}
+
+// constCond evaluates a condition whose operands are known here: comparisons of text that folds to constants,
+// boolean locals computed from such, boolean constants, and their !, &&, || combinations.
+func (ev *gemEval) constCond(x ast.Expr, e *env) (val, known bool) {
+	info := ev.info()
+	x = ast.Unparen(x)
+	if tv, ok := info.Types[x]; ok && tv.Value != nil && tv.Value.Kind() == constant.Bool {
+		return constant.BoolVal(tv.Value), true
+	}
+	switch c := x.(type) {
+	case *ast.Ident:
+		if v, ok := e.bools[info.ObjectOf(c)]; ok {
+			return v, true
+		}
+	case *ast.SelectorExpr:
+		// a boolean field of a descriptor
+		if id, ok := ast.Unparen(c.X).(*ast.Ident); ok {
+			if row, ok := e.rows[info.ObjectOf(id)]; ok {
+				if fe, ok := row[c.Sel.Name]; ok {
+					return ev.constCond(fe, newEnv())
+				}
+				if _, marked := row["·descriptor"]; marked {
+					if t := info.TypeOf(c); t != nil {
+						if b, ok := t.Underlying().(*types.Basic); ok && b.Kind() == types.Bool {
+							return false, true
+						}
+					}
+				}
+			}
+		}
+	case *ast.UnaryExpr:
+		if c.Op == token.NOT {
+			if v, ok := ev.constCond(c.X, e); ok {
+				return !v, true
+			}
+		}
+	case *ast.BinaryExpr:
+		switch c.Op {
+		case token.LAND, token.LOR:
+			a, oka := ev.constCond(c.X, e)
+			b, okb := ev.constCond(c.Y, e)
+			if c.Op == token.LAND {
+				if oka && !a || okb && !b {
+					return false, true
+				}
+				if oka && okb {
+					return true, true
+				}
+			} else {
+				if oka && a || okb && b {
+					return true, true
+				}
+				if oka && okb {
+					return false, true
+				}
+			}
+		case token.EQL, token.NEQ:
+			tx, ty := info.TypeOf(c.X), info.TypeOf(c.Y)
+			if tx == nil || ty == nil || !isStringType(tx) || !isStringType(ty) {
+				// a function-typed field of a descriptor compared with nil
+				if id, ok := ast.Unparen(c.Y).(*ast.Ident); ok && id.Name == "nil" {
+					if se, ok := ast.Unparen(c.X).(*ast.SelectorExpr); ok {
+						if rid, ok := ast.Unparen(se.X).(*ast.Ident); ok {
+							if row, ok := e.rows[info.ObjectOf(rid)]; ok {
+								if _, marked := row["·descriptor"]; marked {
+									_, present := row[se.Sel.Name]
+									return present == (c.Op == token.NEQ), true
+								}
+							}
+						}
+					}
+				}
+				return false, false
+			}
+			a, oka := allConst(ev.fold(c.X, e))
+			b, okb := allConst(ev.fold(c.Y, e))
+			if oka && okb {
+				return (a == b) == (c.Op == token.EQL), true
+			}
+		}
+	}
+	return false, false
+}
+
+// descValues: the descriptor values (struct literals with keyed fields: fragments of code text, flags, small
+// functions) that a struct-typed expression may denote — a literal, a package-level variable initialised with one, a
+// local or parameter bound to one, or a package-local selector function that returns one of several. nil: unknown.
+func (ev *gemEval) descValues(x ast.Expr, e *env, depth int) []map[string]ast.Expr {
+	info := ev.info()
+	x = ast.Unparen(x)
+	switch v := x.(type) {
+	case *ast.CompositeLit:
+		if t := info.TypeOf(v); t == nil {
+			return nil
+		} else if _, ok := t.Underlying().(*types.Struct); !ok {
+			return nil
+		}
+		row := map[string]ast.Expr{"·descriptor": v}
+		for _, el := range v.Elts {
+			kv, ok := el.(*ast.KeyValueExpr)
+			if !ok {
+				return nil
+			}
+			k, ok := kv.Key.(*ast.Ident)
+			if !ok {
+				return nil
+			}
+			row[k.Name] = kv.Value
+		}
+		return []map[string]ast.Expr{row}
+	case *ast.Ident:
+		ob := info.ObjectOf(v)
+		if row, ok := e.rows[ob]; ok {
+			return []map[string]ast.Expr{row}
+		}
+		if pv, ok := ob.(*types.Var); ok && pv.Parent() == ev.g.pkg.Types.Scope() {
+			if init := pkgVarInit(ev.g.pkg, pv.Name()); init != nil && depth < 3 {
+				return ev.descValues(init, newEnv(), depth+1)
+			}
+		}
+	case *ast.CallExpr:
+		if depth > 1 {
+			return nil
+		}
+		fn := calleeOf(info, v)
+		if fn == nil || fn.Pkg() != ev.g.pkg.Types {
+			return nil
+		}
+		var out []map[string]ast.Expr
+		ok := true
+		for _, fd := range allFuncDecls(ev.g.pkg) {
+			if info.Defs[fd.Name] != types.Object(fn) || fd.Body == nil {
+				continue
+			}
+			ast.Inspect(fd.Body, func(n ast.Node) bool {
+				if _, isLit := n.(*ast.FuncLit); isLit {
+					return false
+				}
+				if r, isRet := n.(*ast.ReturnStmt); isRet && len(r.Results) >= 1 {
+					ds := ev.descValues(r.Results[0], newEnv(), depth+1)
+					if ds == nil {
+						ok = false
+					}
+					out = append(out, ds...)
+				}
+				return true
+			})
+		}
+		if ok && len(out) > 0 {
+			return out
+		}
+	}
+	return nil
 }
 
 // funcValues: the declared functions / method values a function-typed expression may denote (nil: unknown).
@@ -839,6 +1127,13 @@ func (ev *gemEval) assign(s *ast.AssignStmt, e *env) []Node {
 		for i, l := range s.Lhs {
 			if id, ok := l.(*ast.Ident); ok && id.Name != "_" {
 				if obj := ev.info().ObjectOf(id); obj != nil && isStringType(obj.Type()) {
+					if i == 0 && ret == nil && ev.retText != nil && ev.retCall != nil && ast.Unparen(s.Rhs[0]) == ast.Expr(ev.retCall) {
+						// the helper was evaluated in place and returned code text it built: the local is that text
+						e.vals[obj] = append([]Part{}, ev.retText...)
+						delete(e.galias, obj)
+						delete(e.genvars, obj)
+						continue
+					}
 					if i == 0 && ret != nil {
 						e.galias[obj] = Part{Kind: PGenVar, Src: ret.Name(), Obj: ret}
 						delete(e.vals, obj)
@@ -1012,11 +1307,20 @@ func (ev *gemEval) call(call *ast.CallExpr, e *env, onEmit func(*Emit)) []Node {
 		for _, a := range call.Args {
 			out = append(out, ev.traversals(a)...)
 		}
-		if ev.depth < 2 && cg != ev.gf && ev.g.parametric(cg) {
+		// (a helper that is handed a descriptor of what to emit says nothing on its own: it is followed a little deeper)
+		takesDescriptor := false
+		for _, prm := range cg.Decl.Type.Params.List {
+			if t := info.TypeOf(prm.Type); t != nil && (isDescriptorType(t, ev.g.pkg.Types) || isTextFunc(t)) {
+				takesDescriptor = true
+			}
+		}
+		if (ev.depth < 2 || takesDescriptor && ev.depth < 4) && cg != ev.gf && ev.g.parametric(cg) {
 			e2 := newEnv()
 			i := 0
 			okBind := true
 			textFuncArg := false
+			var descObj types.Object
+			var descCands []map[string]ast.Expr
 			for _, prm := range cg.Decl.Type.Params.List {
 				for _, nm := range prm.Names {
 					if i >= len(call.Args) {
@@ -1047,6 +1351,11 @@ func (ev *gemEval) call(call *ast.CallExpr, e *env, onEmit func(*Emit)) []Node {
 								textFuncArg = true
 							}
 						}
+					case t != nil && isDescriptorType(t, ev.g.pkg.Types):
+						if ds := ev.descValues(call.Args[i], e, 0); len(ds) > 0 {
+							descObj, descCands = obj, ds
+							textFuncArg = true
+						}
 					}
 					i++
 				}
@@ -1062,20 +1371,63 @@ func (ev *gemEval) call(call *ast.CallExpr, e *env, onEmit func(*Emit)) []Node {
 				}
 			}
 			if okBind && informative && !call.Ellipsis.IsValid() {
+				cg.nInlined++
+				if len(descCands) > 1 {
+					// one alternative per descriptor the argument may denote
+					alt := Alt{Pos: call.Pos()}
+					for k, d := range descCands {
+						e3 := e2.clone()
+						e3.rows[descObj] = d
+						sub := &gemEval{g: ev.g, gf: cg, depth: ev.depth + 1}
+						body := sub.block(cg.Decl.Body.List, e3)
+						ev.retText, ev.retCall = sub.returnedText(cg, e3), call
+						alt.Branches = append(alt.Branches, []Node{Inline{Fn: fn, Name: cg.Name, Body: body, Pos: call.Pos()}})
+						alt.Labels = append(alt.Labels, fmt.Sprintf("descriptor #%d", k+1))
+					}
+					return append(out, alt)
+				}
+				if len(descCands) == 1 {
+					e2.rows[descObj] = descCands[0]
+				}
 				sub := &gemEval{g: ev.g, gf: cg, depth: ev.depth + 1}
 				body := sub.block(cg.Decl.Body.List, e2)
-				cg.nInlined++
+				ev.retText, ev.retCall = sub.returnedText(cg, e2), call
 				return append(out, Inline{Fn: fn, Name: cg.Name, Body: body, Pos: call.Pos()})
 			}
 		}
 		cg.nOpaque++
-		return append(out, CallW{Fn: fn, Name: cg.Name, Args: call.Args, Pos: call.Pos()})
+		argText := make([]string, len(call.Args))
+		for k, a := range call.Args {
+			argText[k] = types.ExprString(a)
+			if id, ok := ast.Unparen(a).(*ast.Ident); ok {
+				if al, ok := e.alias[info.ObjectOf(id)]; ok {
+					argText[k] = al
+				}
+			}
+		}
+		return append(out, CallW{Fn: fn, Name: cg.Name, Args: call.Args, ArgText: argText, Pos: call.Pos()})
 	}
 	return nil
 }
 
-// fold evaluates a string expression to parts.
+// fold evaluates a string expression to parts; adjacent constant parts are one constant.
 func (ev *gemEval) fold(x ast.Expr, e *env) []Part {
+	ps := ev.fold1(x, e)
+	if len(ps) < 2 {
+		return ps
+	}
+	out := make([]Part, 0, len(ps))
+	for _, p := range ps {
+		if n := len(out); n > 0 && p.Kind == PConst && out[n-1].Kind == PConst {
+			out[n-1].Const += p.Const
+			continue
+		}
+		out = append(out, p)
+	}
+	return out
+}
+
+func (ev *gemEval) fold1(x ast.Expr, e *env) []Part {
 	info := ev.info()
 	if tv, ok := info.Types[x]; ok && tv.Value != nil && tv.Value.Kind() == constant.String {
 		return []Part{{Kind: PConst, Const: constant.StringVal(tv.Value)}}
@@ -1096,6 +1448,40 @@ func (ev *gemEval) fold(x ast.Expr, e *env) []Part {
 				}
 			}
 			return []Part{{Kind: PData, Src: types.ExprString(x)}}
+		}
+		// … or held by a field of a descriptor: form.rendered(vn)
+		if se, ok := ast.Unparen(x.Fun).(*ast.SelectorExpr); ok {
+			if rid, ok := ast.Unparen(se.X).(*ast.Ident); ok {
+				if row, ok := e.rows[info.ObjectOf(rid)]; ok {
+					if lit, ok := ast.Unparen(row[se.Sel.Name]).(*ast.FuncLit); ok && row[se.Sel.Name] != nil {
+						tmp := types.NewVar(x.Pos(), ev.g.pkg.Types, "·fieldfunc", info.TypeOf(lit))
+						e4 := e.clone()
+						e4.flits[tmp] = &litVal{lit, newEnv()}
+						return ev.foldLit(e4.flits[tmp], x.Args, e)
+					}
+				}
+			}
+		}
+		if fn := calleeOf(info, x); fn != nil && fullName(fn) == "strings.ReplaceAll" && len(x.Args) == 3 {
+			// constant text with a constant placeholder replaced by known text
+			if text, ok := allConst(ev.fold(x.Args[0], e)); ok {
+				if old, ok := allConst(ev.fold(x.Args[1], e)); ok && old != "" {
+					repl := ev.fold(x.Args[2], e)
+					var out []Part
+					for i, piece := range strings.Split(text, old) {
+						if i > 0 {
+							out = append(out, repl...)
+						}
+						if piece != "" {
+							out = append(out, Part{Kind: PConst, Const: piece})
+						}
+					}
+					if len(out) == 0 {
+						out = []Part{{Kind: PConst, Const: ""}}
+					}
+					return out
+				}
+			}
 		}
 		// a function literal held by a local / handed to this helper, of the form func(…) string { return <text> }
 		if id, ok := ast.Unparen(x.Fun).(*ast.Ident); ok {
@@ -1201,6 +1587,12 @@ func (ev *gemEval) fold(x ast.Expr, e *env) []Part {
 			if row, ok := e.rows[info.ObjectOf(id)]; ok {
 				if fe, ok := row[x.Sel.Name]; ok {
 					return ev.fold(fe, e)
+				}
+				// a field the descriptor literal leaves out is the empty string
+				if _, marked := row["·descriptor"]; marked {
+					if t := info.TypeOf(x); t != nil && isStringType(t) {
+						return []Part{{Kind: PConst, Const: ""}}
+					}
 				}
 			}
 		}
@@ -1345,6 +1737,46 @@ func walkNodes(nodes []Node, f func(Node)) {
 	}
 }
 
+// nearestEmitter: among the functions that have skeletons of their own, the one whose tree reaches an emission of a
+// constant containing sub through the fewest helpers evaluated in place (0: it emits the constant itself). The text is
+// judged once, there, and not again in every caller the helper chain was evaluated into.
+func (g *GEM) nearestEmitter(sub string) *GFunc {
+	var best *GFunc
+	bestDepth := 1 << 30
+	var walk func(nodes []Node, depth int, f func(depth int))
+	walk = func(nodes []Node, depth int, f func(depth int)) {
+		for _, nd := range nodes {
+			switch x := nd.(type) {
+			case Emit:
+				for _, pp := range x.Parts {
+					if pp.Kind == PConst && strings.Contains(pp.Const, sub) {
+						f(depth)
+					}
+				}
+			case Alt:
+				for _, b := range x.Branches {
+					walk(b, depth, f)
+				}
+			case Loop:
+				walk(x.Body, depth, f)
+			case Inline:
+				walk(x.Body, depth+1, f)
+			}
+		}
+	}
+	for _, gf := range g.order {
+		if !gf.Emits || len(g.Skeletons(gf)) == 0 {
+			continue
+		}
+		walk(gf.Tree, 0, func(depth int) {
+			if depth < bestDepth {
+				best, bestDepth = gf, depth
+			}
+		})
+	}
+	return best
+}
+
 // emitsConst: the function's own tree (helpers evaluated in place included) emits a constant containing sub.
 func emitsConst(nodes []Node, sub string) bool {
 	found := false
@@ -1480,6 +1912,69 @@ func (g *GEM) singlePath(gf *GFunc) ([]Node, bool) {
 	return ps[0], true
 }
 
+// literalCloser: the method of the range writer that turns the pending string literal into Go text — recognised by
+// what it emits (the pending-literal buffer between constants), whatever it is called and whether or not the
+// "is a literal pending?" test sits inside it. closerPath is its one path that emits the literal (a path that leaves
+// early because nothing is pending emits nothing).
+func (g *GEM) literalCloser() *GFunc {
+	for _, gf := range g.order {
+		if gf.Decl == nil || gf.Decl.Recv == nil || recvTypeName(gf.Decl.Recv.List[0].Type) != "RangeWriter" {
+			continue
+		}
+		found := false
+		for _, nd := range gf.Tree {
+			if e, ok := nd.(Emit); ok {
+				for _, p := range e.Parts {
+					if p.Kind == PData && p.Src == litBufferSrc {
+						found = true
+					}
+				}
+			}
+			if a, ok := nd.(Alt); ok {
+				walkNodes([]Node{a}, func(x Node) {
+					if e, ok := x.(Emit); ok {
+						for _, p := range e.Parts {
+							if p.Kind == PData && p.Src == litBufferSrc {
+								found = true
+							}
+						}
+					}
+				})
+			}
+		}
+		if found {
+			return gf
+		}
+	}
+	return nil
+}
+
+func (g *GEM) closerPath() ([]Node, bool) {
+	cl := g.literalCloser()
+	if cl == nil || cl.pathErr != "" {
+		return nil, false
+	}
+	var out []Node
+	n := 0
+	for _, pth := range g.Paths(cl) {
+		emits := false
+		for _, nd := range pth {
+			if e, ok := nd.(Emit); ok {
+				for _, p := range e.Parts {
+					if p.Kind == PData && p.Src == litBufferSrc {
+						emits = true
+					}
+				}
+			}
+		}
+		if emits {
+			out = pth
+			n++
+		}
+	}
+	return out, n == 1
+}
+
 // inlinable: a helper writer — one path, no user expressions, no choices, callees inlinable too.
 func (g *GEM) inlinable(gf *GFunc, depth int) ([]Node, bool) {
 	path, ok := g.singlePath(gf)
@@ -1551,9 +2046,8 @@ func (r *renderer) closeLit() {
 	body := r.lit.String()
 	r.lit.Reset()
 	// the closeLiteral template, taken from (*RangeWriter).closeLiteral's own model
-	cl := r.g.byName["RangeWriter.closeLiteral"]
-	if cl != nil {
-		if path, ok := r.g.singlePath(cl); ok {
+	if cl := r.g.literalCloser(); cl != nil {
+		if path, ok := r.g.closerPath(); ok {
 			for _, n := range path {
 				switch n := n.(type) {
 				case Emit:
@@ -1747,6 +2241,9 @@ func (g *GEM) Skeletons(gf *GFunc) []*Skeleton {
 	}
 	out := []*Skeleton{}
 	defer func() { gf.skels = out }()
+	if os.Getenv("TEMPLVET_DEBUG") != "" && gf.Decl != nil && len(gf.Decl.Type.Params.List) > 1 {
+		fmt.Fprintf(os.Stderr, "DEBUG GEM %s parametric=%v inlined=%d opaque=%d\n", gf.Name, g.parametric(gf), gf.nInlined, gf.nOpaque)
+	}
 	if g.parametric(gf) && gf.nInlined > 0 && gf.nOpaque == 0 {
 		return out // evaluated at every one of its call sites
 	}
@@ -2144,7 +2641,7 @@ func (g *GEM) parametric(gf *GFunc) bool {
 	params := map[types.Object]bool{}
 	for _, prm := range gf.Decl.Type.Params.List {
 		t := g.info.TypeOf(prm.Type)
-		if t == nil || !isStringType(t) && !isTextFunc(t) {
+		if t == nil || !isStringType(t) && !isTextFunc(t) && !isDescriptorType(t, g.pkg.Types) {
 			continue
 		}
 		for _, nm := range prm.Names {
